@@ -45,15 +45,16 @@ def run(ctx: Ctx, env):
     repo = env.repo
     gm = grammar_module(env)
     g = env.grammar
-    if "ODATA_FUNCTIONS" not in gm.assigns:
+    fa = repo.assign(gm.name, "ODATA_FUNCTIONS")  # the table may live in another module and be re-exported from the grammar
+    if fa is None:
         raise AnalysisError("ODATA_FUNCTIONS table not found", gm.rel)
-    tnode = gm.assigns["ODATA_FUNCTIONS"][0]
+    tmod, tnode = fa
     try:
-        raw = repo.fold(gm, tnode)
+        raw = repo.fold(tmod, tnode)
     except NotConst as e:
-        raise AnalysisError(f"ODATA_FUNCTIONS is not a constant table: {e}", gm.loc(tnode))
+        raise AnalysisError(f"ODATA_FUNCTIONS is not a constant table: {e}", tmod.loc(tnode))
     table = normalise(raw)
-    where = gm.loc(tnode)
+    where = tmod.loc(tnode)
 
     # ---- R1 table equals oracle -------------------------------------------------------------------
     for name, (lo, hi) in O.ODATA_FUNCTION_ARITY.items():
